@@ -239,9 +239,16 @@ impl ConditionEvaluator {
             accessor.get_u64_slice_with_validity(condition.field(), start, end)
         {
             if condition.value() < 0 {
-                // u64 cannot satisfy negative thresholds
-                for m in mask.iter_mut() {
-                    *m = false;
+                // A negative threshold is below every u64: >, >=, != keep every non-null row,
+                // <, <=, = keep none
+                let keep = matches!(
+                    condition.op(),
+                    super::condition::CompareOp::Gt
+                        | super::condition::CompareOp::Gte
+                        | super::condition::CompareOp::Neq
+                );
+                for (m, v) in mask.iter_mut().zip(valid.iter()) {
+                    *m = *m && keep && *v;
                 }
                 return;
             }
